@@ -5,6 +5,7 @@ import Hive.Proofs.TypedCounter
 import Hive.Proofs.TypedGate
 import Hive.Gen.C06_Skel
 import Hive.Proofs.TypedCode
+import Hive.Proofs.TypedUpgrade
 /-!
 # C06 — TypedValue / TypedStore are transparent, error-faithful typed views
 
@@ -573,6 +574,67 @@ sequential behaviour unchanged, breaks this obligation. -/
 theorem C06_code_lock_discipline :
     lockOk prog.get = true ∧ lockOk prog.has = true ∧ lockOk prog.compute = true ∧ lockOk prog.set = true ∧
     lockOk prog.delete = true := by decide
+
+/-- **The upgrade window of `Get` / `Has`.**  Between the `RUnlock` of the fast path and the `Lock` of the slow path the
+caller holds nothing, so the slow path runs in a state its own fast path never saw — e.g. with a cache that another
+caller filled in between; sequentially that is unreachable, `C06_code_refines_model` is silent about it.  For the
+re-translated bodies split at their first `Lock()` (`fastPart` / `slowPart`; the split preserves the body's meaning):
+(1) the slow part alone, started in **every** state — also one in which the fast path would have hit —, gives the
+result, raw bytes, cache fields and call trace of the sequential `step` (so the re-check branches answer from the
+cache exactly like the fast path, and `Compute/Set/Delete` are slow part only);
+(2) the fast part alone answers `fastOut` (hit ⇒ the cached answer, miss ⇒ falls through), makes no call and leaves
+state and locals untouched.
+These are the `r1` and `w1` micro-steps of the protocol model; `C06_code_serialised` puts them together. -/
+theorem C06_code_upgrade_window (C : Codec V) (s : St V) :
+    (∀ w op F, execSlowW w prog C s op F = step C s op F) ∧
+    (∀ w op F, fastOutCode w prog C s op F = fastOut s op) ∧
+    (∀ w F, outcM (exec C noFn F w (fastPart prog.get) (Code.start s)) = Code.start s ∧
+            outcM (exec C noFn F w (fastPart prog.has) (Code.start s)) = Code.start s) ∧
+    (slowPart prog.compute = prog.compute ∧ slowPart prog.set = prog.set ∧ slowPart prog.delete = prog.delete) ∧
+    (∀ f F w body (m : M V), exec C f F w (.seq (fastPart body) (slowPart body)) m = exec C f F w body m) :=
+  ⟨fun w op F => execSlowW_eq_step w C s op F, fun w op F => fastOutCode_eq w C s op F,
+   fun w F => ⟨(fast_get w C s F).2, (fast_has w C s F).2⟩,
+   ⟨slow_writers.1, slow_writers.2.1, slow_writers.2.2.1⟩,
+   fun f F w body m => exec_split C f F w body m⟩
+
+/-- **Serialisation of the translated code, upgrade window included.**  The protocol whose read-locked micro-step
+runs the *translated fast part* and whose write-locked read phase runs the *translated slow part* — each on the
+shared state of the moment it is scheduled, any number of goroutines, any scripts, every schedule, store errors bare
+or wrapped — is the protocol model (`sysCode w prog C = sys C`), hence has every property of `C06_serialised`: write
+sections exclude each other and the readers, the log of completed calls (fast-path hits included) is a run of the
+sequential machine ending in `base`, and outside write sections the shared state is `base`. -/
+theorem C06_code_serialised (w : Bool) (C : Codec V) (s0 : St V) (scripts : List (List (Op V × Faults)))
+    (c : Cfg (Shared V) (Thread V)) (hr : Reach (sysCode w prog C) (init s0, scripts.map Conc.start) c) :
+    sysCode w prog C = sys C ∧
+    (c.2.countP (fun t => inW t.pc) ≤ 1 ∧ (c.2.countP (fun t => inW t.pc) = 1 → c.2.countP (fun t => inR t.pc) = 0)) ∧
+    run C s0 (logOps c.1.log) = (c.1.base, logOuts c.1.log) ∧
+    (c.2.countP (fun t => inW t.pc) = 0 → c.1.tv = c.1.base) := by
+  rw [sysCode_eq] at hr
+  exact ⟨sysCode_eq w C, C06_serialised C s0 scripts c hr⟩
+
+/-- Non-vacuity of (1): a `Has` whose slow path answers with its named result instead of re-reading the cache (the
+re-check only guards the store call) is sequentially indistinguishable from the code — fast path and slow path back
+to back agree with `step` in a state with a cold cache and in one with a warm cache — but its slow part, started in a
+state in which presence is already cached, answers `false` for a stored key. -/
+def hasNamedResult : Stmt :=
+ (.seq (.sync .rlock)
+ (.seq (.ite .chNotNil (.seq (.sync .deferRUnlock) (.ret [.b .derefCh, .e .nil])) .skip)
+ (.seq (.sync .runlock)
+ (.seq (.sync .lock)
+ (.seq (.sync .deferUnlock)
+ (.seq (.ite .chNil
+   (.seq (.seq (.kvHas 1 2) (.ite (.errNe 2) (.ret [.b .ff, .e (.wrap (.var 2) "failed to check whether key exists")]) .skip))
+     (.chAddr 1))
+   .skip)
+ (.ret [.b (.var 1), .e .nil])))))))
+
+example :
+    let P : Prog := { prog with has := hasNamedResult }
+    let warm : St UInt64 := { store := some [1], cv := none, ch := some true }
+    (execOpW false P codec64 warm .has {}).out = (step codec64 warm .has {}).out ∧
+    (execOpW false P codec64 (fresh (some [1])) .has {}).out = (step codec64 (fresh (some [1])) .has {}).out ∧
+    (execSlowW false P codec64 warm .has {}).out = .has false ∧ (step codec64 warm .has {}).out = .has true := by
+  decide
 
 /-- The walk is not vacuous: it rejects a body that inspects the cache before taking the lock, and one that
 returns with the lock held. -/
